@@ -501,7 +501,16 @@ int main(int argc, char** argv) {
         if (pipe(jp) != 0)
             return 3;
         std::fflush(ctx.out);
-        pid_t pid = fork();
+        pid_t pid = -1;
+        for (int attempt = 0; attempt < 20 && pid < 0; ++attempt) { // a loaded machine may refuse a fork for a moment
+            pid = fork();
+            if (pid < 0)
+                sleep(3);
+        }
+        if (pid < 0) {
+            ctx.note("fork failed repeatedly");
+            return 3; // harness failure: the driver reports the run as inconclusive
+        }
         if (pid == 0) {
             close(jp[0]);
             int ef = open(errfile.c_str(), O_WRONLY | O_CREAT | O_TRUNC, 0644);
@@ -590,9 +599,21 @@ int main(int argc, char** argv) {
             continue;
         }
         if (!started) {
-            ctx.note("child died before the first case: " + read_file(errfile).substr(0, 500));
+            // nothing of the workload ran yet: resource trouble on a loaded machine (retried), or the facade cannot even be
+            // constructed (then it happens every time and is reported)
+            static int died_early = 0;
+            std::string elog = read_file(errfile);
             unlink(errfile.c_str());
-            return 3;
+            if (++died_early <= 3) {
+                ctx.note("child died before the first case (retrying): " + elog.substr(0, 300));
+                sleep(2);
+                continue;
+            }
+            ctx.violation("crash:before-first-case:" + sanitizer_key(elog, status, false), "the child process died before its first case, four times in a row", c,
+                          JObj().str("log", elog.substr(0, 2000)).done());
+            c = batch_end;
+            died_early = 0;
+            continue;
         }
         std::string log = read_file(errfile);
         std::string key = sanitizer_key(log, status, hang);
